@@ -64,6 +64,31 @@ pub fn parse<'a, I: Iterator<Item = &'a str>>(t: &mut I) -> Built {
             }
             a
         }
+        "mulsingles" => {
+            // Mul<SingleOp> by value for every element of B
+            let mut a = sub!(t);
+            let b = sub!(t);
+            for s in b.iter() {
+                a = a * s.clone();
+            }
+            a
+        }
+        "mulrefmut" => {
+            // the `&mut MultiOp *= MultiOp` / `&mut MultiOp *= SingleOp` overloads
+            let mut a = sub!(t);
+            let b = sub!(t);
+            {
+                let mut r = &mut a;
+                if b.len() % 2 == 0 {
+                    r *= b;
+                } else {
+                    for s in b.iter() {
+                        r *= s.clone();
+                    }
+                }
+            }
+            a
+        }
         "pushfront" => {
             // the queue A ++ B assembled from the back: start from B and push A's elements to the front in
             // reverse order (Deref<VecDeque>::push_front; the ring buffer wraps around)
